@@ -11,6 +11,7 @@
  *               of_build_repair_symbol on unit vectors, all equal to the RFC 5170 reference; every check
  *               equation sums to zero over the produced codeword; IS_LAST_SYMBOL_NULL truthful (C15).
  */
+#include <sys/mman.h>
 #include "vf.h"
 #include "ref.h"
 #include "lib_common/of_openfec_api.h"
@@ -362,6 +363,11 @@ static void ldpc_point (const pt_t *p)
 				}
 				if (badrow >= 0) { snprintf (sig, sizeof sig, "codec=ldpc|kind=codeword-violates-rfc5170-equation|slot=%s|prefix=%d", mode ? "null" : "buffer", p->prefix); viol ("C06", sig); viol ("C05", sig); }
 				if (enc_null) { for (b = 0; b < len; b++) if (((unsigned char *) tab[n - 1])[b]) { viol ("C15", "kind=claimed-null-but-last-repair-symbol-not-zero"); break; } }
+				{	/* the answer is a property of the code: asked again after encoding, and twice, it is the same */
+					bool again = !enc_null, again2 = !enc_null;
+					if (of_get_control_parameter (s, OF_CRTL_LDPC_STAIRCASE_IS_LAST_SYMBOL_NULL, &again, sizeof again) != OF_STATUS_OK || of_get_control_parameter (s, OF_CRTL_LDPC_STAIRCASE_IS_LAST_SYMBOL_NULL, &again2, sizeof again2) != OF_STATUS_OK) viol ("C15", "kind=control-parameter-query-failed|session=encoder|moment=after-encoding");
+					else if ((again ? 1 : 0) != (enc_null ? 1 : 0) || (again2 ? 1 : 0) != (enc_null ? 1 : 0)) viol ("C15", "kind=answer-changes-after-encoding");
+				}
 				for (j = k; j < n; j++) {
 					if (mode == 0) { first[j] = malloc ((size_t) len); memcpy (first[j], tab[j], (size_t) len); }
 					else if (first[j] && memcmp (first[j], tab[j], (size_t) len)) { viol ("C06", "codec=ldpc|call=build|kind=null-slot-value-differs-from-buffer-mode"); break; }
@@ -675,9 +681,51 @@ typedef struct { int k, r, N1, seed; } hc_t;
 static const hc_t HC[5] = {{5, 4, 3, 1}, {7, 5, 4, 2}, {4090, 7, 3, 1}, {3000, 1500, 5, 9}, {300, 100, 6, 4}};
 static bitmat *HREF[5];
 static int g_halpha = 4, g_hlen = 6;
+/* family 2: symbols 0..2 are measured LDPC sessions (n = 9, 12 and an even-N1 low-rate code whose last repair symbol is
+ * null), symbols 3.. are activities of other kinds that must leave no trace */
+#define NACT 8
+static const hc_t HC2[3] = {{5, 4, 3, 1}, {7, 5, 4, 2}, {3, 9, 4, 3}};
+static bitmat *HREF2[3];
+static signed char *NULLBASE;	/* [family 0: 5 codes][2 roles], [family 2: 3 codes][2 roles]: IS_LAST_SYMBOL_NULL in a pristine process */
+static int g_hfam = 0;
+static void hist_activity (int a)
+{
+	of_session_t *s; int rej = 0, i;
+	unsigned char sym[24][8]; void *tab[24];
+	for (i = 0; i < 24; i++) { memset (sym[i], i * 7 + 1, 8); tab[i] = sym[i]; }
+	switch (a) {
+	case 0: s = open_ses (1, 8, 3, 2, 0, 0, 8, OF_ENCODER, &rej); if (s) { of_build_repair_symbol (s, tab, 3); of_build_repair_symbol (s, tab, 4); of_release_codec_instance (s); } break;
+	case 1: s = open_ses (2, 4, 3, 2, 0, 0, 8, OF_DECODER, &rej); if (s) { of_decode_with_new_symbol (s, sym[1], 1); of_decode_with_new_symbol (s, sym[3], 3); of_decode_with_new_symbol (s, sym[4], 4); { void *t[3] = {0}; if (of_get_source_symbols_tab (s, t) == OF_STATUS_OK && t[0] && t[0] != sym[0]) free (t[0]); } of_release_codec_instance (s); } break;
+	case 2: s = open_ses (2, 8, 4, 3, 0, 0, 8, OF_ENCODER_AND_DECODER, &rej); if (s) { of_build_repair_symbol (s, tab, 5); of_release_codec_instance (s); } break;
+	case 3: s = open_ses (3, 0, 5, 4, 9, 77, 8, OF_DECODER, &rej); if (s) of_release_codec_instance (s); break;	/* rejected: N1 > n-k */
+	case 4: s = open_ses (3, 0, 5, 4, 3, 0, 8, OF_ENCODER, &rej); if (s) of_release_codec_instance (s); break;	/* rejected: seed 0 */
+	case 5: {	/* an LDPC decoder that ends in Gaussian elimination (consumes rand()), then a displaced PRNG state */
+		unsigned char z[9][4]; memset (z, 0, sizeof z);
+		s = open_ses (3, 0, 4, 5, 3, 99, 4, OF_DECODER, &rej);
+		if (s) { void *t[4] = {0}; for (i = 4; i < 8; i++) of_decode_with_new_symbol (s, z[i], (UINT32) i); of_finish_decoding (s); of_get_source_symbols_tab (s, t); of_release_codec_instance (s); for (i = 0; i < 4; i++) free (t[i]); }
+		break; }
+	case 6: {	/* a 2D parity session: encoder, then a decoder with one loss */
+		of_2d_parity_parameters_t prm; of_session_t *d = NULL;
+		memset (&prm, 0, sizeof prm); prm.nb_source_symbols = 4; prm.nb_repair_symbols = 4; prm.encoding_symbol_length = 8;
+		s = NULL;
+		if (of_create_codec_instance (&s, OF_CODEC_2D_PARITY_MATRIX_STABLE, OF_ENCODER, 0) == OF_STATUS_OK && s) {
+			if (of_set_fec_parameters (s, (of_parameters_t *) &prm) == OF_STATUS_OK) for (i = 4; i < 8; i++) of_build_repair_symbol (s, tab, (UINT32) i);
+			of_release_codec_instance (s);
+		}
+		if (of_create_codec_instance (&d, OF_CODEC_2D_PARITY_MATRIX_STABLE, OF_DECODER, 0) == OF_STATUS_OK && d) {
+			if (of_set_fec_parameters (d, (of_parameters_t *) &prm) == OF_STATUS_OK) { void *t[4] = {0}; for (i = 1; i < 8; i++) of_decode_with_new_symbol (d, sym[i], (UINT32) i); of_finish_decoding (d); of_get_source_symbols_tab (d, t); of_release_codec_instance (d); if (t[0] && t[0] != sym[0]) free (t[0]); }
+			else of_release_codec_instance (d);
+		}
+		break; }
+	default: {	/* an LDPC session left OPEN for the rest of the process (leaked on purpose), with an even N1 */
+		s = open_ses (3, 0, 6, 8, 4, 5, 8, OF_ENCODER, &rej);
+		break; }
+	}
+}
+
 static void hist_desc (long seq, char *out, size_t sz)
 {
-	size_t l = (size_t) snprintf (out, sz, "hist alpha=%d len=%d seq=%ld codes=", g_halpha, g_hlen, seq);
+	size_t l = (size_t) snprintf (out, sz, "hist fam=%d alpha=%d len=%d seq=%ld codes=", g_hfam, g_halpha, g_hlen, seq);
 	int i; long x = seq;
 	for (i = 0; i < g_hlen && l + 4 < sz; i++) { l += (size_t) snprintf (out + l, sz - l, "%d", (int) (x % g_halpha)); x /= g_halpha; }
 }
@@ -690,15 +738,21 @@ static void hist_body (long seq, void *arg)
 	(void) arg;
 	for (i = 0; i < g_hlen; i++) {
 		int c = (int) (x % g_halpha), rej = 0, type = (i & 1) ? OF_DECODER : OF_ENCODER;
-		const hc_t *h = &HC[c];
+		const hc_t *h;
+		const bitmat *Hr;
 		of_session_t *s;
 		bool isnull = false;
 		x /= g_halpha;
+		if (g_hfam == 2 && c >= 3) { hist_activity (c - 3); continue; }
+		h = g_hfam == 2 ? &HC2[c] : &HC[c]; Hr = g_hfam == 2 ? HREF2[c] : HREF[c];
 		s = open_ses (3, 0, h->k, h->r, h->N1, h->seed, 8, type, &rej);
 		vf_stat_add (st_trans, 1);
 		if (!s) { snprintf (sig, sizeof sig, "hist|kind=valid-configuration-rejected|position=%d|code=%d", i, c); viol ("C05", sig); break; }
-		if (type == OF_DECODER) of_get_control_parameter (s, OF_CRTL_LDPC_STAIRCASE_IS_LAST_SYMBOL_NULL, &isnull, sizeof isnull);
-		if (!sparse_equals_ref (((of_ldpc_staircase_cb_t *) s)->pchk_matrix, HREF[c], h->k, h->r, isnull ? 1 : 0)) {
+		if (of_get_control_parameter (s, OF_CRTL_LDPC_STAIRCASE_IS_LAST_SYMBOL_NULL, &isnull, sizeof isnull) != OF_STATUS_OK) viol ("C15", "hist|kind=control-parameter-query-failed");
+		else if (NULLBASE && NULLBASE[(g_hfam == 2 ? 10 : 0) + c * 2 + (type == OF_DECODER)] >= 0 && (isnull ? 1 : 0) != NULLBASE[(g_hfam == 2 ? 10 : 0) + c * 2 + (type == OF_DECODER)]) {
+			snprintf (sig, sizeof sig, "hist|kind=last-symbol-null-answer-depends-on-history|session=%s|code=%d", type == OF_DECODER ? "decoder" : "encoder", c); viol ("C15", sig);
+		}
+		if (!sparse_equals_ref (((of_ldpc_staircase_cb_t *) s)->pchk_matrix, Hr, h->k, h->r, (type == OF_DECODER && isnull) ? 1 : 0)) {
 			snprintf (sig, sizeof sig, "hist|kind=pchk-differs-from-rfc5170|session=%s|position=%d|code=%d", type == OF_DECODER ? "decoder" : "encoder", i, c);
 			viol ("C05", sig);
 		}
@@ -706,6 +760,28 @@ static void hist_body (long seq, void *arg)
 		if (overlap) prev = s; else of_release_codec_instance (s);
 	}
 	if (prev) of_release_codec_instance (prev);
+}
+/* the answers of a pristine process, one child per (family, code, role) */
+static void nullbase_child (long it, void *arg)
+{
+	int fam2 = it >= 10, c = (int) ((it % 10) / 2), type = (it & 1) ? OF_DECODER : OF_ENCODER, rej = 0;
+	const hc_t *h = fam2 ? &HC2[c] : &HC[c];
+	of_session_t *s;
+	bool isnull = false;
+	(void) arg;
+	if (fam2 && c >= 3) return;
+	s = open_ses (3, 0, h->k, h->r, h->N1, h->seed, 8, type, &rej);
+	if (s && of_get_control_parameter (s, OF_CRTL_LDPC_STAIRCASE_IS_LAST_SYMBOL_NULL, &isnull, sizeof isnull) == OF_STATUS_OK) NULLBASE[it] = isnull ? 1 : 0;
+}
+static void hist_setup (void)
+{
+	int c; long it;
+	if (HREF[0]) return;
+	for (c = 0; c < 5; c++) HREF[c] = rfc5170_H (HC[c].k, HC[c].k + HC[c].r, HC[c].N1, (uint64_t) HC[c].seed, NULL);
+	for (c = 0; c < 3; c++) HREF2[c] = rfc5170_H (HC2[c].k, HC2[c].k + HC2[c].r, HC2[c].N1, (uint64_t) HC2[c].seed, NULL);
+	NULLBASE = mmap (NULL, 64, PROT_READ | PROT_WRITE, MAP_SHARED | MAP_ANONYMOUS, -1, 0);
+	memset (NULLBASE, 0xFF, 64);
+	for (it = 0; it < 16; it++) vf_run_isolated (nullbase_child, it, NULL, 60, NULL, NULL, 0);
 }
 static void hist_item (long it, void *arg)
 {
@@ -742,7 +818,7 @@ static void item_replay (long it, void *arg)
 	else if (sscanf (cs, "both codec=%d m=%d k=%d r=%d N1=%d seed=%d len=%d lost=%d", &p.codec, &p.m, &p.k, &p.r, &p.N1, &p.seed, &p.len, &p.prefix) == 8) { int b = 0; const char *q = strstr (cs, " built="); if (q) b = atoi (q + 7); p.n = p.k + p.r; p.slotmode = 9 + b; both_point (&p); }
 	else if (!strncmp (cs, "hist ", 5)) {
 		long seq; int c;
-		if (sscanf (cs, "hist alpha=%d len=%d seq=%ld", &g_halpha, &g_hlen, &seq) == 3) { for (c = 0; c < g_halpha; c++) HREF[c] = rfc5170_H (HC[c].k, HC[c].k + HC[c].r, HC[c].N1, (uint64_t) HC[c].seed, NULL); hist_item (seq, NULL); }
+		if (sscanf (cs, "hist fam=%d alpha=%d len=%d seq=%ld", &g_hfam, &g_halpha, &g_hlen, &seq) == 4) { hist_setup (); hist_item (seq, NULL); }
 	}
 	else if (sscanf (cs, "2d k=%d r=%d len=%d", &p.k, &p.r, &p.len) >= 2) { p.codec = 5; p.n = p.k + p.r; p2d_point (&p); }
 	else vf_viol ("MACHINERY", "kind=bad-replay-case", "%s", cs);
@@ -852,16 +928,20 @@ int main (int argc, char **argv)
 		}
 	}
 	if (!strcmp (mode, "hist")) {
-		long nseq = 1; int c, i;
-		g_halpha = thorough ? 5 : 4; g_hlen = thorough ? 7 : 6;
-		for (c = 0; c < g_halpha; c++) HREF[c] = rfc5170_H (HC[c].k, HC[c].k + HC[c].r, HC[c].N1, (uint64_t) HC[c].seed, NULL);
+		long nseq = 1, nseq2 = 1; int i;
+		g_hfam = 0; g_halpha = thorough ? 5 : 4; g_hlen = thorough ? 7 : 6;
+		hist_setup ();
 		for (i = 0; i < g_hlen; i++) nseq *= g_halpha;
-		vf_note ("mode hist: every sequence of %d sessions over %d codes (n = 9, 12, 4097, 4500%s): %ld processes", g_hlen, g_halpha, thorough ? ", 400" : "", nseq);
+		vf_note ("mode hist, family 0: every sequence of %d sessions over %d codes (n = 9, 12, 4097, 4500%s): %ld processes", g_hlen, g_halpha, thorough ? ", 400" : "", nseq);
 		vf_pool_run (nseq, hist_item, NULL, 0);
-		vf_outcome ("hist:sequences", nseq);
+		g_hfam = 2; g_halpha = 3 + NACT; g_hlen = thorough ? 5 : 4;
+		for (i = 0; i < g_hlen; i++) nseq2 *= g_halpha;
+		vf_note ("mode hist, family 2: every sequence of %d steps over 3 measured LDPC codes and %d other activities (RS 2^8 / 2^m / 2D sessions, two rejected LDPC configurations, an ML decoding with displaced PRNG, a session left open): %ld processes", g_hlen, NACT, nseq2);
+		vf_pool_run (nseq2, hist_item, NULL, 0);
+		vf_outcome ("hist:sequences", nseq + nseq2);
 		vf_stat_add (st_exec, vf_stat_get (st_trans));
 		vf_stat_add (st_dn, vf_stat_get (st_points));
-		vf_sample ("hist alpha=4 len=6 seq=2730 codes=222222: six sessions of the n=4097 code in one process, alternately encoder and decoder: each matrix equals the RFC 5170 reference");
+		vf_sample ("hist fam=0 alpha=4 len=6 seq=2730 codes=222222: six sessions of the n=4097 code in one process, alternately encoder and decoder: each matrix equals the RFC 5170 reference");
 		vf_finish ();
 		return 0;
 	}
